@@ -5,7 +5,7 @@ document order) through ONE instruction; all integers 1..5000 x format tokens x 
 import os, sys, time, json, itertools
 sys.path.insert(0, os.path.join(os.path.dirname(os.path.abspath(__file__)), '..', 'lib'))
 sys.path.insert(0, os.path.dirname(os.path.abspath(__file__)))
-import vlib, refdoc as R, refxpath as X, xpgen as G
+import vlib, refdoc as R, refxpath as X, xpgen as G, xpparse
 from refxpath import num, s, fn, b, step, path, name, NODE, TEXTT, WILD, DOS
 
 PROP = 'C17'
@@ -21,14 +21,16 @@ COUNTS = [
     ('node()', path(step('child', NODE))),
     ('a[@x]', path(step('child', A, path(step('attribute', name('x')))))),
     ('p:a', path(step('child', name('a', 'p')))),
-]
+] + [(t, xpparse.parse_text(t)) for t in ('a[1]', '*[@x]', 'b|text()', 'comment()|processing-instruction()', 'a/a', 'a[b]', '@*', 'r/*')]
+N_COUNT_Q = 8
 FROMS = [
     (None, None),
     ('a', path(step('child', A))),
     ('b', path(step('child', Bn))),
     ('r', path(step('child', name('r')))),
     ('/', ('path', 'root', [])),
-]
+] + [(t, xpparse.parse_text(t)) for t in ('*', 'b|r', 'a[@x]', 'a/a', 'text()')]
+N_FROM_Q = 5
 LEVELS = ['single', 'multiple', 'any']
 
 
@@ -265,7 +267,11 @@ def format_numbers(nums, f, gsep='', gsize=0):
 def count_shard(shard, nshards, tier):
     D = docs()
     w = vlib.Worker('xdrv', stderr_path=os.path.join(vlib.BUILD, 'tmp', 'c17.%d.err' % shard))
-    params = [(l, c, f) for l in LEVELS for c in COUNTS for f in FROMS]
+    thorough = tier == 'thorough'
+    params = [(l, c, f) for l in LEVELS for ci, c in enumerate(COUNTS) for fi, f in enumerate(FROMS)
+              if thorough or (ci < N_COUNT_Q and fi < N_FROM_Q) or (ci + fi) % 4 == 0]
+    if thorough:
+        D = D + [x for x in G.docs() if x.name not in set(y.name for y in D)]
     B = 24
     batches = [params[i:i + B] for i in range(0, len(params), B)]
     counts = {'evaluations': 0, 'transformations': 0, 'nontrivial': 0}
@@ -338,13 +344,21 @@ def history_shard(shard, nshards, tier):
     samples = []
     insts = [('any', COUNTS[0], FROMS[0]), ('any', COUNTS[1], FROMS[0]), ('any', COUNTS[2], FROMS[2]), ('any', COUNTS[3], FROMS[1]),
              ('any', COUNTS[5], FROMS[0]), ('multiple', COUNTS[2], FROMS[0]), ('single', COUNTS[0], FROMS[1]), ('any', COUNTS[0], FROMS[2])]
+    if thorough:
+        insts = [(l, c, f) for l in LEVELS for c in COUNTS for f in FROMS[:7]]
     jobs = []
     for di in (3, 2) if not thorough else range(len(D)):
         d = D[di]
-        elems = [n for n in d.nodes if n.kind in (R.ELEM, R.TEXT)]
+        o = D[(di + 1) % len(D)]
+        elems = [(0, n) for n in d.nodes if n.kind in (R.ELEM, R.TEXT)]
+        oelems = [(1, n) for n in o.nodes if n.kind in (R.ELEM, R.TEXT)]
         subsets = [elems[:4], elems[-4:], elems[1:9:2]] if not thorough else [elems[i:i + 4] for i in range(0, max(1, len(elems) - 3), 2)]
+        # the same instruction numbering nodes of two source trees in one transformation (main document and document('o.xml'))
+        mixed = [elems[1:3] + oelems[1:3], [elems[-1], elems[0]] + [oelems[-1], oelems[0]]]
+        if thorough:
+            mixed += [elems[i:i + 2] + oelems[i:i + 2] for i in range(2, min(len(elems), len(oelems)) - 1, 3)]
         for ii, inst in enumerate(insts):
-            for sub in subsets:
+            for sub in subsets + mixed:
                 for perm in itertools.permutations(range(len(sub))):
                     jobs.append((di, ii, [sub[p] for p in perm]))
             jobs.append((di, ii, list(elems)))
@@ -354,21 +368,30 @@ def history_shard(shard, nshards, tier):
             for a_, b_ in zip(elems, reversed(elems)):
                 inter += [a_, b_]
             jobs.append((di, ii, inter))
+            # both trees, alternating
+            alt = []
+            for a_, b_ in zip(elems, oelems):
+                alt += [a_, b_]
+            jobs.append((di, ii, alt))
     alone = {}
     for ji, (di, ii, seq) in enumerate(jobs):
         if ji % nshards != shard:
             continue
         d = D[di]
+        o = D[(di + 1) % len(D)]
         lvl, ct, fr = insts[ii]
         attrs = ' level="%s"' % lvl + (' count="%s"' % ct[0] if ct[0] else '') + (' from="%s"' % fr[0] if fr[0] else '')
         # select each node by its document-order index among //node()
-        allnodes = [n for n in d.nodes if n.kind not in (R.ROOT, R.ATTR, R.NS)]
-        idx = {id(n): i + 1 for i, n in enumerate(allnodes)}
-        body = ''.join('<xsl:for-each select="(//node())[%d]"><v><xsl:call-template name="num"/></v></xsl:for-each>' % idx[id(n)] for n in seq)
+        idx = {}
+        for t_, dd in ((0, d), (1, o)):
+            for i, n in enumerate([n for n in dd.nodes if n.kind not in (R.ROOT, R.ATTR, R.NS)]):
+                idx[(t_, id(n))] = i + 1
+        SEL = ("(//node())[%d]", "(document('o.xml')//node())[%d]")
+        body = ''.join('<xsl:for-each select="%s"><v><xsl:call-template name="num"/></v></xsl:for-each>' % (SEL[t_] % idx[(t_, id(n))]) for t_, n in seq)
         xsl = ('<xsl:stylesheet version="1.0" xmlns:xsl="%s" xmlns:p="u1"><xsl:template name="num"><xsl:number%s format="1."/></xsl:template>'
                '<xsl:template match="/"><out>%s</out></xsl:template></xsl:stylesheet>' % (XSL, attrs, body))
         try:
-            r = w.request('tr', xsl, d.to_xml())
+            r = w.request('tr', xsl, d.to_xml(), 'r:o.xml=' + o.to_xml())
         except vlib.WorkerDied as wd:
             viols.append(('history|fatal|%s' % attrs, {'stderr': wd.stderr_tail[-1500:]}))
             continue
@@ -381,13 +404,13 @@ def history_shard(shard, nshards, tier):
         got = [v.string_value() for v in out.docel.children]
         # differential oracle: the same instruction on the same node in a transformation that numbers nothing else
         exp = []
-        for n in seq:
-            k = (di, ii, idx[id(n)])
+        for t_, n in seq:
+            k = (di, ii, t_, idx[(t_, id(n))])
             if k not in alone:
                 xa = ('<xsl:stylesheet version="1.0" xmlns:xsl="%s" xmlns:p="u1"><xsl:template name="num"><xsl:number%s format="1."/></xsl:template>'
-                      '<xsl:template match="/"><out><xsl:for-each select="(//node())[%d]"><v><xsl:call-template name="num"/></v></xsl:for-each></out>'
-                      '</xsl:template></xsl:stylesheet>' % (XSL, attrs, idx[id(n)]))
-                ra = w.request('tr', xa, d.to_xml())
+                      '<xsl:template match="/"><out><xsl:for-each select="%s"><v><xsl:call-template name="num"/></v></xsl:for-each></out>'
+                      '</xsl:template></xsl:stylesheet>' % (XSL, attrs, SEL[t_] % idx[(t_, id(n))]))
+                ra = w.request('tr', xa, d.to_xml(), 'r:o.xml=' + o.to_xml())
                 counts['history_transformations'] += 1
                 alone[k] = R.parse_xml(ra[2]).docel.string_value() if ra[0] == '0' else 'ERROR ' + ra[1][:60]
             exp.append(alone[k])
@@ -395,10 +418,10 @@ def history_shard(shard, nshards, tier):
         if got != exp:
             k = next(i for i in range(len(exp)) if i >= len(got) or got[i] != exp[i])
             viols.append(('history|%s|%s' % (attrs.strip(), d.name),
-                          {'doc': d.name, 'xml': d.to_xml(), 'order': [d.path(n) for n in seq], 'first_wrong_visit': k + 1,
-                           'expected_each_node_alone': exp, 'got': got}))
+                          {'doc': d.name, 'xml': d.to_xml(), 'other': o.to_xml(), 'order': [('o:' if t_ else '') + (o if t_ else d).path(n) for t_, n in seq],
+                           'first_wrong_visit': k + 1, 'expected_each_node_alone': exp, 'got': got}))
         if len(samples) < 2 and ji % 997 == shard:
-            samples.append('history on %s:%s order %s' % (d.name, attrs, [d.path(n) for n in seq]))
+            samples.append('history on %s:%s order %s' % (d.name, attrs, [('o:' if t_ else '') + (o if t_ else d).path(n) for t_, n in seq]))
     w.close()
     return {'counts': counts, 'viols': viols, 'samples': samples}
 
@@ -480,12 +503,15 @@ def main():
     cov = {
         'evaluations': counts['evaluations'] + counts['history_evaluations'] + counts['format_evaluations'],
         'distinct_nontrivial': counts['nontrivial'],
-        'rule': 'Counting: level {single,multiple,any} x count {default,a,a|b,*,text(),node(),a[@x],p:a} x from {-,a,b,r,/} x 4 documents x '
-                'EVERY node (elements, attributes, text, comments, PIs, root) against a reference implementation of XSLT 7.7. Histories: one '
-                'instruction inside a named template visited in every permutation of 4-node subsets, in document order, reverse order and '
-                'interleaved from both ends, for 8 parameter sets. Formatting: every integer 1..5000 x 10 formats x 3 groupings, number lists '
-                'of length 1..3 x 8 formats, rounding of value=. An evaluation is one (instruction, node) or one formatted number; non-trivial '
-                '= the expected number list is not empty.',
+        'rule': 'Counting: level {single,multiple,any} x count {default,a,a|b,*,text(),node(),a[@x],p:a,a[1],*[@x],b|text(),comment()|pi(),a/a,a[b],@*,r/*} '
+                'x from {-,a,b,r,/,*,b|r,a[@x],a/a,text()} (quick: the first 8 x 5 and a quarter of the rest; thorough: all 480) x 4 (quick) / 8 '
+                '(thorough) documents x EVERY node (elements, attributes, text, comments, PIs, root) against a reference implementation of XSLT '
+                '7.7. Histories: one instruction inside a named template visited in every permutation of 4-node subsets of the main document and '
+                'of 2+2-node subsets across the main document and a document() tree, in document order, reverse order, interleaved from both '
+                'ends and alternating between the two trees, for 8 (quick) / all 336 level x count x from[:7] (thorough) parameter sets; oracle = '
+                'the same instruction on the same node in a transformation that numbers nothing else. Formatting: every integer 1..5000 x 10 '
+                'formats x 3 groupings, number lists of length 1..3 x 8 formats, rounding of value=. An evaluation is one (instruction, node) or '
+                'one formatted number; non-trivial = the expected number list is not empty.',
         'samples': [x for r in res for x in r['samples']][:8] or ['none'],
         'transformations': counts['transformations'] + counts['history_transformations'] + counts['format_transformations'],
         'histories': counts['histories'],
